@@ -2,7 +2,9 @@
 //! common value per rodbus_server_update_database transaction while client tasks read all N points with a
 //! single request each; a reply that mixes two values has observed part of a transaction.
 //! input line:  <n_points> <n_clients> <duration_ms>
-//! output line: reads=<r> mixed=<m> backwards=<b> txns=<t> distinct=<d> errors=<e> [first_mixed=<...>]
+//! A further client writes through write_single_register; the C write callback then sets all N points to the
+//! written (even) value inside the handler's critical section; transactions use odd values.
+//! output line: reads=<r> mixed=<m> backwards=<b> txns=<t> distinct=<d> errors=<e> client_writes=<w> [first_mixed=<...>]
 //!   backwards = a client saw an older value after a newer one (replies of one connection are ordered)
 use super::p5_common::*;
 use rodbus::client::*;
@@ -42,6 +44,26 @@ extern "C" fn set_all(db: *mut rodbus_ffi::Database, ctx: *mut c_void) {
     }
 }
 
+/// write_single_register(index = n, value = v): the application callback sets every point to v, one by one
+extern "C" fn wh_set_all(index: u16, value: u16, db: *mut rodbus_ffi::Database, _ctx: *mut c_void) -> ffi::WriteResult {
+    for i in 0..index {
+        unsafe {
+            ffi::rodbus_database_update_holding_register(db, i, value);
+            ffi::rodbus_database_update_coil(db, i, value % 2 == 1);
+        }
+        if i % 16 == 7 {
+            std::thread::yield_now();
+        }
+    }
+    write_result(true, ffi::ModbusException::Unknown, 0)
+}
+
+fn stress_write_handler() -> ffi::WriteHandler {
+    let mut h = accepting_write_handler();
+    h.write_single_register = Some(wh_set_all);
+    h
+}
+
 #[derive(Default)]
 struct Tally {
     reads: u64,
@@ -69,7 +91,7 @@ pub fn main(_args: &[String]) -> i32 {
                 ffi::rodbus_device_map_add_endpoint(
                     map,
                     1,
-                    accepting_write_handler(),
+                    stress_write_handler(),
                     ffi::DatabaseCallback {
                         callback: Some(init_points),
                         on_destroy: Some(noop_destroy),
@@ -128,8 +150,8 @@ pub fn main(_args: &[String]) -> i32 {
                                     if t.first_mixed.is_none() {
                                         t.first_mixed = Some(v.iter().map(|x| x.value.to_string()).collect::<Vec<_>>().join(","));
                                     }
-                                } else {
-                                    // values only grow (mod 2^16 never reached within a run)
+                                } else if first % 2 == 1 {
+                                    // transaction values (odd) only grow; client-written values (even) interleave with them
                                     if first < last {
                                         t.backwards += 1;
                                     }
@@ -159,14 +181,41 @@ pub fn main(_args: &[String]) -> i32 {
                 }
             }));
         }
+        // ---- a client that writes: its request runs the C write callback, which sets all points (even values)
+        let client_writes = Arc::new(AtomicU64::new(0));
+        {
+            let (stop, cw) = (stop.clone(), client_writes.clone());
+            tasks.push(rt.spawn(async move {
+                let ch = spawn_tcp_client_task(
+                    HostAddr::ip(IpAddr::from([127, 0, 0, 1]), port),
+                    4,
+                    rodbus::doubling_retry_strategy(Duration::from_millis(10), Duration::from_millis(40)),
+                    DecodeLevel::nothing(),
+                    None,
+                );
+                let _ = ch.enable().await;
+                let param = RequestParam::new(UnitId::new(1), Duration::from_secs(5));
+                let mut v: u16 = 0;
+                while !stop.load(Ordering::SeqCst) {
+                    v = v.wrapping_add(2);
+                    match ch.write_single_register(param, Indexed::new(n, v)).await {
+                        Ok(_) => {
+                            cw.fetch_add(1, Ordering::SeqCst);
+                        }
+                        Err(_) => tokio::time::sleep(Duration::from_millis(2)).await,
+                    }
+                    tokio::time::sleep(Duration::from_micros(300)).await;
+                }
+            }));
+        }
         // ---- writer (plain thread: the C API blocks on the handler mutex)
         let server_ptr = server as usize;
         let (stop_w, txns_w) = (stop.clone(), txns.clone());
         let writer = std::thread::spawn(move || {
-            let mut value: u16 = 0;
+            let mut value: u16 = 1;
             while !stop_w.load(Ordering::SeqCst) {
-                value = value.wrapping_add(1);
-                if value == 0 {
+                value = value.wrapping_add(2); // odd values: transactions
+                if value < 3 {
                     break;
                 }
                 let (_, ctx) = leak_ctx(Tx { n, value });
@@ -203,13 +252,14 @@ pub fn main(_args: &[String]) -> i32 {
         unsafe { ffi::rodbus_server_destroy(server) };
         let t = tally.lock().unwrap();
         let mut out = format!(
-            "reads={} mixed={} backwards={} txns={} distinct={} errors={}",
+            "reads={} mixed={} backwards={} txns={} distinct={} errors={} client_writes={}",
             t.reads,
             t.mixed,
             t.backwards,
             txns.load(Ordering::SeqCst),
             t.distinct.len(),
-            t.errors
+            t.errors,
+            client_writes.load(Ordering::SeqCst)
         );
         if let Some(m) = &t.first_mixed {
             out.push_str(&format!(" first_mixed={m}"));
